@@ -156,6 +156,13 @@ class _WriteStream:
     def flush(self):
         return self._inner.flush()
 
+    def __enter__(self):
+        return self
+
+    def __exit__(self, *exc):
+        self.close()
+        return False
+
     def fdatasync(self):
         return self._inner.fdatasync()
 
